@@ -1,5 +1,5 @@
 (* Proofs/C06_PsmEx.v - non-vacuity of C06_all_p: with the host model of Model/Host.v (IDNA oracle idna_clean; HostOK2 and
-   host_nonempty hold) the history  parse "http://h/a/b" ; path_segments_mut { push("x<TAB>y"), pop, extend(["..", "c d"]) } ;
+   host_nonempty hold) the history  parse "http://h/a/b" ; path_segments_mut { push("x<TAB>y"), pop, extend(["..", ".<TAB>.", "c d"]) } ;
    set_ip_host(127.0.0.1)  is a ReachC6p history. *)
 From Coq Require Import String.
 From RU Require Import Base.Prelude Base.Utf8 Model.AsciiSet Gen.Tables Model.PercentEncoding Model.HostT Model.Host Model.UrlRecord
@@ -14,7 +14,7 @@ Notation mhp := (host_parse idna_clean).
 Notation mhpo := host_parse_opaque.
 Notation mhd := host_display.
 
-Definition ex7_ops : list psm_op := [PPush [120; 9; 121]; PPop; PExtend [[46; 46]; B "c d"]].
+Definition ex7_ops : list psm_op := [PPush [120; 9; 121]; PPop; PExtend [[46; 46]; [46; 9; 46]; B "c d"]].
 
 Lemma reach6p_inhabited :
   HostOK2 mhp mhpo mhd /\ host_nonempty mhp mhpo
@@ -41,7 +41,6 @@ Proof.
   { apply (P_psm true mhp mhpo mhd u0 ex7_ops u1 R0); try exact E1.
     - vm_compute. reflexivity.
     - repeat constructor; unfold is_usv; lia.
-    - repeat constructor.
     - vm_compute in E1. inversion E1; subst u1. vm_compute. discriminate. }
   vm_compute in E1. inversion E1; subst u1. clear E1.
   match type of R1 with ReachC6p _ _ _ _ ?v => set (u1 := v) in * end.
